@@ -32,27 +32,27 @@ func runDownloader(mode string) vRec {
 	// every node registers the sync endpoints; responses for a procedure the receiver does not know are dropped
 	_ = connA.RegisterRPCHandler(csync.RPCEndpointGetBlocksFromID, func(w p2p.ResponseWriter, r *p2p.Request) { w.Write(nil) })
 	if err := connA.Start([]byte{}); err != nil {
-		rec.Res = "harness: " + err.Error()
+		rec.St, rec.Res = 5, "harness: "+err.Error()
 		return rec
 	}
 	defer connA.Stop() //nolint:errcheck
 	if err := connB.Start([]byte{}); err != nil {
-		rec.Res = "harness: " + err.Error()
+		rec.St, rec.Res = 5, "harness: "+err.Error()
 		return rec
 	}
 	defer connB.Stop() //nolint:errcheck
 	addrs, err := connB.Peer.MultiAddress()
 	if err != nil || len(addrs) == 0 {
-		rec.Res = "harness: no address"
+		rec.St, rec.Res = 5, "harness: no address"
 		return rec
 	}
 	info, err := p2p.AddrInfoFromMultiAddr(addrs[0])
 	if err != nil {
-		rec.Res = "harness: " + err.Error()
+		rec.St, rec.Res = 5, "harness: "+err.Error()
 		return rec
 	}
 	if err := connA.Peer.Connect(context.Background(), *info); err != nil {
-		rec.Res = "harness: " + err.Error()
+		rec.St, rec.Res = 5, "harness: "+err.Error()
 		return rec
 	}
 	ctx, cancel := context.WithCancel(context.Background())
@@ -70,8 +70,15 @@ func runDownloader(mode string) vRec {
 	case <-done:
 		rec.Res = fmt.Sprintf("returned after %d requests", atomic.LoadInt64(&served))
 	case <-time.After(2500 * time.Millisecond):
+		// same rule as cx.Guard: the same call gets four times more before it is reported
+		select {
+		case <-done:
+			rec.Res = fmt.Sprintf("returned after %d requests (slow)", atomic.LoadInt64(&served))
+			return rec
+		case <-time.After(10 * time.Second):
+		}
 		rec.St = 3
-		rec.Panic = fmt.Sprintf("Downloader.Start still running after 2.5 s and %d answered requests (peer keeps sending empty block lists) @ sync.Downloader.Start", atomic.LoadInt64(&served))
+		rec.Panic = fmt.Sprintf("Downloader.Start still running after 12.5 s and %d answered requests (peer keeps sending empty block lists) @ sync.Downloader.Start", atomic.LoadInt64(&served))
 		cancel()
 		select {
 		case <-done:
